@@ -105,6 +105,18 @@ def sample_env(variables, hyps, rng, tries=400, scale=3):
     return None
 
 
+def env_to_q(env):
+    out = {}
+    for k, v in (env or {}).items():
+        if isinstance(v, str):
+            try:
+                v = Q(v)
+            except (ValueError, ZeroDivisionError):
+                continue
+        out[k] = v
+    return out
+
+
 def _numeric_diff(lhs, rhs, env):
     a = tm.evaluate(lhs, env, MP)
     b = tm.evaluate(rhs, env, MP)
@@ -285,6 +297,17 @@ def decide_equal(hyps, lhs, rhs, timeout_s=10.0, rng=None, n_cross=3, assume_def
             # bound sums are abstracted to unconstrained constants in the SMT encoding: its models are not counterexamples
             return Verdict("undecided", be, "normal form inconclusive; solver model is over the abstraction of bound sums", seconds=time.time() - t0, cases=len(cases))
         if v == "invalid":
+            # exp/log/sqrt-like atoms are uninterpreted in the SMT encoding: a model is a counterexample only if the two sides
+            # really differ when evaluated at it
+            try:
+                rel, a_, b_ = _numeric_diff(l, r, env_to_q(env))
+                if rel <= MP.mpf(10) ** (-20):
+                    return Verdict("undecided", be, "normal form inconclusive; the solver model is an artefact of uninterpreted transcendental atoms "
+                                   "(both sides evaluate to %s there)" % a_, seconds=time.time() - t0, cases=len(cases))
+            except KeyError:
+                pass   # genuinely uninterpreted functions: any model is an interpretation
+            except (ZeroDivisionError, ValueError, TypeError):
+                pass
             return Verdict("refuted", be, "smt model (case %s)" % [tm.show(c, 80) for c in conds], witness=env,
                            seconds=time.time() - t0, cases=len(cases))
         return Verdict("undecided", be, "normal form inconclusive and solver unknown: %s" % (env,), seconds=time.time() - t0, cases=len(cases))
